@@ -192,3 +192,39 @@ func VerifC17Long() {
 	}
 	verifReach("C17.long.end")
 }
+
+func init() {
+	verifRegister("VerifC17Units", VerifC17Units)
+}
+
+// VerifC17Units: byte level with the REAL parser in both variants (job flag realparse): documents of two root blocks
+// whose indented rows use their own notation -- i resp. j blanks (1..4) or a tab per level, the second block one or
+// two levels deep, roots as list rows or # headings -- so that what the parser learns in the first block (unit,
+// indentation character) meets a second block that may or may not agree with it: same accept/reject decision, same text.
+func VerifC17Units() {
+	ind := func(tag string) string {
+		if verifFlag(tag + "tab") {
+			return "\t"
+		}
+		return strings.Repeat(" ", int(verifChoose(tag, 1, 4)))
+	}
+	a, b := ind("i"), ind("j")
+	var rows []string
+	if verifFlag("sharp") {
+		rows = []string{"# a", "- b", a + "- c", "# d", "- e", b + "- f"}
+	} else {
+		rows = []string{"- a", a + "- b", "- d", b + "- e"}
+		if verifFlag("deep") {
+			rows = append(rows, b+b+"- f")
+		}
+	}
+	w1, w2 := newVerifWriter(), newVerifWriter()
+	verifContext("C17.units")
+	err1 := Output(w1, &verifReader{lines: rows})
+	err2 := wasm.Output(w2, &verifReader{lines: append([]string{}, rows...)})
+	verifAssert((err1 == nil) == (err2 == nil), "C17.acc.units/text")
+	if err1 == nil && err2 == nil {
+		verifAssert(w1.out == w2.out, "C17.out.units/text")
+	}
+	verifReach("C17.units.end")
+}
